@@ -4,7 +4,7 @@
    the class of programs that leave both alone ([kq]). *)
 From LC Require Import Lib.Bytes Lib.Lex Lib.Fields Lib.PathM Gen.Consts
   Model.MountInfo Model.FsTree Model.Kernel Model.Layers Cases.Verdict Cases.LC
-  Proofs.MonadP Proofs.MntSimP.
+  Proofs.MntSimP.
 Open Scope N_scope.
 
 (* ------------------------------------------------------------------ plain environment *)
